@@ -292,7 +292,10 @@ def apLine (f : List String) : String :=
     | none => s!"{id} !badops"
     | some ins =>
       let failAt := if fa == "-" then none else fa.toNat?
-      let cfg : AP.Cfg := {}
+      -- `after=<seq>`: events stamped before that instant are ignored (`Auditd.After`)
+      let cfg : AP.Cfg := match (kv rest "after").bind String.toNat? with
+        | some n => if n > 0 then { after := Spec.AP.tsOf n } else {}
+        | none => {}
       let (o, amb, forced) := Spec.AP.modelObs cfg failAt ins
       let sp := Spec.AP.specC15 cfg failAt ins o
       let isp := match kv rest "obs" with
@@ -310,7 +313,7 @@ def apLine (f : List String) : String :=
 def wkCore : Wk.Core := Wk.fromGen.core
 
 def phaseOf : String → Option Wk.IPhase
-  | "opening" => some .opening | "reading" => some .reading | "handing" => some .handing | _ => none
+  | "opening" | "precancelled" => some .opening | "reading" => some .reading | "handing" => some .handing | _ => none
 
 /-- `R:<returned>:<late deliveries>:<non-nil error>:<was blocked>` must be `R:1:0:1:1` -/
 def specWorkers (obs : String) : Option String :=
@@ -354,7 +357,7 @@ def groupOf (cause : String) (load : Bool) : Option Wk.Group :=
   match cause with
   | "eof-sshd" | "notfifo-sshd" | "writeerr" => some ⟨⟨.returned true, 0⟩, auditBusy, procBusy, false⟩
   | "eof-audit" | "notfifo-audit" => some ⟨⟨.reading, 0⟩, ⟨.returned true, if load then cap else 0⟩, procBusy, false⟩
-  | "badline" => some ⟨⟨.reading, 0⟩, auditBusy, { procBusy with main := .failing }, false⟩
+  | "badline" | "writeerr-audit" => some ⟨⟨.reading, 0⟩, auditBusy, { procBusy with main := .failing }, false⟩
   | "sigterm" | "sigint" => some ⟨⟨.reading, 0⟩, auditBusy, procBusy, true⟩
   | _ => none
 
@@ -462,6 +465,81 @@ def handoffLine (f : List String) : String :=
       s!"{id} {obs} spec={verdict sp} ispec={isp} dom=1 nt={if ss.length ≥ 2 then 1 else 0}"
   | _ => "!badline"
 
+/-- the reassembler model alone: `<id> <max> <timeout_ms> <op;op;…> [obs=…]`; ops `N:…` (as in the
+audit-processor protocol), `W` (everything in flight expires, `Maintain`), `M` (`Maintain`) -/
+def reasmLine (f : List String) : String :=
+  match f with
+  | id :: max :: _to :: ops :: rest =>
+    match max.toNat?, Spec.AP.parseIns ops with
+    | some mx, some ins =>
+      let render := fun (g : List AP.Rec) => "G:" ++ String.intercalate "," (g.map fun r => toString r.tag)
+      let (fl, out) := ins.foldl (fun (acc : List (Nat × AP.Entry) × List String) i =>
+        match i with
+        | .line _ (some r) =>
+          let (fl', gs, _) := AP.cleanUp mx false (AP.put acc.1 r)
+          (fl', acc.2 ++ gs.map render)
+        | .expire =>
+          let (fl', gs, _) := AP.cleanUp mx true acc.1
+          (fl', acc.2 ++ gs.map render)
+        | _ =>
+          let (fl', gs, _) := AP.cleanUp mx false acc.1
+          (fl', acc.2 ++ gs.map render)) ([], [])
+      let all := out ++ ["|"] ++ (AP.clear fl).map render
+      let obs := String.intercalate ";" all
+      -- the property on an observation: every non-EOE record in exactly one group; a group holds one sequence number
+      let recs := Spec.AP.recsOf ins
+      let judge := fun (x : String) =>
+        let gs := (x.splitOn ";").filter (· != "|")
+        let tags := gs.flatMap fun g => ((g.drop 2).toString.splitOn ",").filterMap String.toNat?
+        let want := (recs.filter (·.kind != .eoe)).map (·.tag)
+        if tags.length != tags.eraseDups.length then some "record-in-two-groups"
+        else if !(want.all tags.contains) then some "record-lost"
+        else if !(tags.all want.contains) then some "unknown-record"
+        else
+          let mixed := gs.any fun g =>
+            let ts := ((g.drop 2).toString.splitOn ",").filterMap String.toNat?
+            let seqs := ts.filterMap fun t => (recs.find? (·.tag == t)).map (·.seq)
+            seqs.eraseDups.length > 1
+          if mixed then some "group-mixes-events" else none
+      let isp := match kv rest "obs" with
+        | none => "-"
+        | some x => verdict (judge x)
+      s!"{id} {obs} spec={verdict (judge obs)} ispec={isp} dom=1 nt={if out.length ≥ 2 then 1 else 0}"
+    | _, _ => s!"{id} !badcase"
+  | _ => "!badline"
+
+/-- C07 at FIFO level: `<id> <ok|fail> <chunkhex,…> [pauses=…] [obs=…]` — the records of the
+concatenated stream (any chunking), each through the syslog ingester model, until the first error -/
+def c07fifoLine (f : List String) : String :=
+  match f with
+  | id :: ok :: chunks :: rest =>
+    match (chunks.splitOn ",").mapM ofHex with
+    | none => s!"{id} !badhex"
+    | some cs =>
+      let okb := ok == "ok"
+      let recs := (Pipe.recordsFast '\n' [] cs.flatten).1
+      let (effs, res) := recs.foldl (fun (acc : List Sshd.Eff × Option String) r =>
+        match acc.2 with
+        | some _ => acc
+        | none =>
+          let o := Syslog.process sshdCfg r okb .ready
+          (acc.1 ++ o.effs, match o.res with | .nil => none | x => some x.render)) ([], none)
+      let obs := String.intercalate ";" (sortIncsFirst effs ++ [res.getD "R:eof"])
+      -- the same stream handed over record by record, directly (pid, message) — the property itself
+      let direct := recs.foldl (fun (acc : List Sshd.Eff × Option String) r =>
+        match acc.2 with
+        | some _ => acc
+        | none =>
+          let (pid, msg) := Syslog.parse r
+          let o := Sshd.process sshdCfg pid msg okb .ready
+          (acc.1 ++ o.effs, match o.res with | .nil => none | x => some x.render)) ([], none)
+      let dobs := String.intercalate ";" (sortIncsFirst direct.1 ++ [direct.2.getD "R:eof"])
+      let isp := match kv rest "obs" with
+        | none => "-"
+        | some x => if x == dobs then "ok" else "FAIL:delivered-through-the-pipe-differs-from-direct"
+      s!"{id} {obs} spec={if obs == dobs then "ok" else "FAIL:model"} ispec={isp} dom=1 nt={if effs.length ≥ 2 then 1 else 0}"
+  | _ => "!badline"
+
 partial def loop (h : IO.FS.Stream) (out : IO.FS.Stream) (f : List String → String) : IO Unit := do
   let line ← h.getLine
   if line.isEmpty then return ()
@@ -474,11 +552,13 @@ def main (args : List String) : IO UInt32 := do
   let stdout ← IO.getStdout
   match args with
   | ["sshd", prop] => loop stdin stdout (sshdLine prop); return 0
+  | ["c07fifo"] => loop stdin stdout c07fifoLine; return 0
   | ["c07"] => loop stdin stdout c07Line; return 0
   | ["conc"] => loop stdin stdout concLine; return 0
   | ["health"] => loop stdin stdout healthLine; return 0
   | ["dir"] => loop stdin stdout dirLine; return 0
   | ["pipe"] => loop stdin stdout pipeLine; return 0
+  | ["reasm"] => loop stdin stdout reasmLine; return 0
   | ["handoff"] => loop stdin stdout handoffLine; return 0
   | ["workers"] => loop stdin stdout workersLine; return 0
   | ["daemon"] => loop stdin stdout daemonLine; return 0
